@@ -130,7 +130,7 @@ def c07_extreme_program(r, cfg):
 
 
 def search_filter(pid, r, n, stats):
-    from . import oracle
+    from . import oracle, gen as gen_mod
     for _ in range(n):
         cfg, evs = filter_profile(pid, r)
         if pid == "C09" and r.random() < 0.3:
@@ -150,6 +150,37 @@ def search_filter(pid, r, n, stats):
             evs.append(("g", r.choice(["G1 X15 Y15", "G1 X16 Y14 E0", "G1 E0", "G1 X44 Y43"])))
             evs.append(("g", r.choice(["G1 X30 Y31", "G1 E0", "G1 X30 Y30 E1", "G1 E-2"])))
             evs.append(("g", "G1 X3 Y3 E2"))
+        if pid in ("C01", "C03", "C02") and r.random() < 0.08:
+            # words whose value is exactly zero are words: a move to X0 / Y0 is a move
+            if r.random() < 0.5:
+                cfg = dict(cfg, regions=[("R", "o", -3.0, 8.0, 3.0, 14.0), ("R", "a", 10.0, 10.0, 20.0, 20.0)])
+                evs = [("g", "G28"), ("g", "G1 X30 Y11 Z0.2 F3000"),
+                       ("g", r.choice(["G1 X0 E1", "G1 X0", "G0 X0.0", "G1 X-0 E1"])),
+                       ("g", "G1 X25 E2"), ("g", "G1 X26 E3")]
+            else:
+                cfg = dict(cfg, regions=[("R", "a", 10.0, 10.0, 20.0, 20.0)])
+                evs = [("g", "G28"), ("g", "G1 X30 Y30 Z0.2 F3000"), ("g", r.choice(["G1 X0 Y0", "G0 X0 Y0.0", "G1 Y0 X0"])),
+                       ("g", "G91"), ("g", r.choice(["G1 X15 Y15 E1", "G1 X15 Y15"])), ("g", "G1 X1 E2"), ("g", "G90"),
+                       ("g", "G1 X30 Y30"), ("g", "G1 X31 Y30 E4")]
+        if pid == "C09" and r.random() < 0.08:
+            # linear moves with coordinates far beyond the square root of the largest double
+            big = "1" + "0" * r.choice([150, 155, 160, 200, 300])
+            cfg = dict(cfg, regions=[("C", "b", 44.0, 43.0, 5.0), ("R", "a", 10.0, 10.0, 20.0, 20.0)])
+            evs = [("g", c) for c in r.choice([
+                ["G28", "G1 X%s Y5 F3000" % big, "G1 X15 Y15", "G1 X30 Y30 E1"],
+                ["G28", "G91", "G1 X%s" % big, "G1 X-%s" % big, "G90", "G1 X44 Y43", "G1 X-%s Y%s" % (big, big), "G1 X3 Y3"],
+                ["G28", "G20", "G1 X%s Y1" % big, "G1 X1 Y1"],
+                ["G28", "G1 X5 Y-%s Z%s" % (big, big), "G1 X44 Y43 Z1", "G1 X5 Y5"]])]
+        if pid in ("C04", "C05") and r.random() < 0.08:
+            # one retraction spanning two region visits: retracted inside the first region, still
+            # retracted on the way to the second, recovered / printed / retracted again inside it
+            fw = r.random() < 0.4
+            cfg = dict(cfg, regions=list(gen_mod.DEFAULT_REGIONS))
+            second = r.choice(["G1 X44 Y43", "G1 X12 Y18"])
+            evs = [("g", c) for c in [
+                "G28", "G1 X5 Y5 Z0.2 F3000", "G1 X6 Y5 E1", "G1 X15 Y15", "G10" if fw else "G1 E0 F1800",
+                "G1 X30 Y30", second, "G11" if fw else "G1 E1 F1800", "G1 X%s E2" % ("45 Y43" if "44" in second else "13 Y18"),
+                "G10" if fw else "G1 E1 F1800", "G1 X30 Y31", "G11" if fw else "G1 E2 F1800", "G1 X31 Y31 E3", "G1 X32 Y31 E4"]]
         if pid == "C07" and r.random() < 0.3:
             # tracked values far outside repr's plain range end up in the exit / recovery commands
             evs = c07_extreme_program(r, cfg)
@@ -299,9 +330,19 @@ def search_c08(pid, r, n, stats):
         ops = gen.gen_path(r, list(regions), {"fw": r.random() < 0.3, "g92e": r.random() < 0.5, "max_len": 30})
         ops = [o for o in ops if o[0] not in ("at", "addregion")]
         idx = r.randint(2, max(2, len(ops) - 1))
+        if r.random() < 0.25:
+            idx = 0            # the usual start sequence: units and positioning mode first, then homing
+        if r.random() < 0.3:
+            # the program homes again somewhere in the middle (all axes)
+            # (right after a move that ends outside every region: homing inside an episode is K-D18)
+            outs = [k for k, o in enumerate(ops) if o[0] == "move" and o[1] is not None and o[2] is not None
+                    and gen.classify(list(regions), o[1], o[2]) == "out"]
+            if outs:
+                k = r.choice(outs) + 1
+                ops = ops[:k] + [("home",), ("move", 5.0, 5.0, 0.2, 0.0, 3000)] + ops[k:]
         stats["evaluations"] += 1
         stats["nontrivial"].add(zlib.crc32(repr(ops).encode()))
-        for variant in ("inch", "rel"):
+        for variant in ("inch", "rel", "inchrel"):
             v = oracle_geo.c08_reencode(r, regions, ops, variant, idx)
             if v:
                 return {"kind": "reencode", "property": pid, "regions": [list(s) for s in regions],
@@ -345,14 +386,17 @@ def search_c16(pid, r, n, stats):
         cx2, cy2 = sx + oi, sy + oj
         ex2, ey2 = round(cx2 + rad2 * math.cos(b1), 6), round(cy2 + rad2 * math.sin(b1), 6)
         mx, my = cx2 + rad2 * math.cos(bm), cy2 + rad2 * math.sin(bm)
-        cfg2 = {"regions": [("R", "m", mx - 2.0, my - 2.0, mx + 2.0, my + 2.0)]}
+        # (in inch mode the length unit is the inch: the same numbers, the region scaled)
+        u2 = 25.4 if r.random() < 0.25 else 1.0
+        cfg2 = {"regions": [("R", "m", (mx - 2.0) * u2, (my - 2.0) * u2, (mx + 2.0) * u2, (my + 2.0) * u2)]}
         arc_cmd = "%s X%s Y%s I%s J%s" % ("G2" if cw2 else "G3", repr(ex2), repr(ey2), repr(oi), repr(oj))
-        evs2 = [("g", "G28"), ("g", "G1 X%r Y%r Z1" % (sx, sy)), ("g", arc_cmd)]
+        evs2 = [("g", "G28")] + ([("g", "G20")] if u2 != 1.0 else []) + \
+            [("g", "G1 X%r Y%r Z1" % (sx, sy)), ("g", arc_cmd)]
         res2, _h2 = oracle.run_events(cfg2, evs2)
         if arc_cmd in oracle.forwarded(evs2[-1], res2[-1]):
             return {"kind": "filter", "property": pid, "cfg": dict(cfg2, g90e=False, enter=None, exit=None, ext={}),
                     "events": [list(e) for e in evs2],
-                    "violations": ["step 2: arc %r passes 2 units deep through region %r but was forwarded"
+                    "violations": ["last step: arc %r passes 2 units deep through region %r but was forwarded"
                                    % (arc_cmd, cfg2["regions"][0])]}
         # the same arc line twice: the second starts where the first ended (a full circle about a
         # different centre); the points tested must belong to the arc actually commanded
@@ -383,7 +427,7 @@ def search_c17(pid, r, n, stats):
     from . import suites, oracle_geo
     for _ in range(n):
         a = suites.rand_region_spec(r, "a")
-        b = suites.rand_region_spec(r, "b")
+        b = suites.rand_region_spec(r, "a" if r.random() < 0.3 else "b")     # an update re-uses the id
         x, y = suites.rand_coord(r), suites.rand_coord(r)
         stats["evaluations"] += 1
         stats["nontrivial"].add(zlib.crc32(repr((a, b, x, y)).encode()))
@@ -478,6 +522,16 @@ def search_c20(pid, r, n, stats):
                 opts["rel"] = False
             pre = gen.encode_path(gen.gen_path(r, regions, opts))
         lines = suites.rand_file(r)
+        if r.random() < 0.12:
+            # several actions for one @-command, the matching one not the last: switching off inside an
+            # episode must give the same exit sequence as the live hooks
+            cfg = dict(cfg, at=r.choice([
+                [("ExcludeRegion", "off", "disable_exclusion"), ("ExcludeRegion", "on", "enable_exclusion")],
+                [("ExcludeRegion", "off", "disable_exclusion"), ("ExcludeRegion", "on", "enable_exclusion"),
+                 ("Other", None, "enable_exclusion")]]))
+            cfg["regions"] = [("R", "a", 10.0, 10.0, 20.0, 20.0)]
+            lines = [ln + "\n" for ln in ["G28", "G1 X5 Y5 Z0.2 F3000", "G1 X15 Y15 E1", "M117 hi", "@ExcludeRegion off",
+                                          "G1 X16 Y16 E2", "@ExcludeRegion on", "G1 X30 Y30", "G1 X31 Y30 E3"]]
         stats["evaluations"] += 1
         stats["nontrivial"].add(zlib.crc32(repr((pre, lines)).encode()))
         v = oracle_text.c20_stream(cfg, pre, lines)
